@@ -346,6 +346,23 @@ def _other_mutation(f, p) -> bool:
     return False
 
 
+def _setlike(n) -> bool:
+    """an expression that certainly is a set or a dict view taking part in set algebra"""
+    if isinstance(n, (ast.Set, ast.SetComp)):
+        return True
+    if isinstance(n, ast.Call):
+        name = dotted_name(n.func) or ""
+        if name in ("set", "frozenset"):
+            return True
+        if isinstance(n.func, ast.Attribute) and n.func.attr in ("keys", "items") and not n.args:
+            return True
+        if isinstance(n.func, ast.Attribute) and n.func.attr in ("union", "intersection", "difference", "symmetric_difference"):
+            return True
+    if isinstance(n, ast.BinOp) and isinstance(n.op, (ast.BitAnd, ast.BitOr, ast.BitXor)) and (_setlike(n.left) or _setlike(n.right)):
+        return True
+    return False
+
+
 def unordered_loops(mod: Mod):
     """[(qualname, For node, description)]"""
     out = []
@@ -358,6 +375,17 @@ def unordered_loops(mod: Mod):
                     desc = "set display"
                 elif isinstance(it, ast.Call) and (dotted_name(it.func) or "") in UNORDERED_CALLS:
                     desc = dotted_name(it.func)
+                elif isinstance(it, ast.BinOp) and isinstance(it.op, (ast.BitAnd, ast.BitOr, ast.BitXor, ast.Sub)) and (_setlike(it.left) or _setlike(it.right)):
+                    desc = f"set expression {src(it)[:50]}"       # keys() & keys(), set(...) - set(...): a set, iterated in hash order
+                elif isinstance(it, ast.Call) and isinstance(it.func, ast.Attribute) and it.func.attr in ("union", "intersection", "difference", "symmetric_difference") \
+                        and (_setlike(it.func.value) or any(_setlike(a_) for a_ in it.args)):
+                    desc = f"set expression {src(it)[:50]}"
+                elif isinstance(it, ast.Name):
+                    # a local bound (once) to such a set expression
+                    defs = [st.value for st in ast.walk(f) if isinstance(st, ast.Assign) and len(st.targets) == 1 and isinstance(st.targets[0], ast.Name) and st.targets[0].id == it.id]
+                    if len(defs) == 1 and (_setlike(defs[0]) or (isinstance(defs[0], ast.BinOp) and isinstance(defs[0].op, (ast.BitAnd, ast.BitOr, ast.BitXor, ast.Sub))
+                                                                  and (_setlike(defs[0].left) or _setlike(defs[0].right)))):
+                        desc = f"set {it.id} = {src(defs[0])[:40]}"
                 if desc and isinstance(n, ast.For):
                     if any(n in ast.walk(g) for qq, g in mod.funcs.items() if qq != q and qq.startswith(q + ".")):
                         continue
@@ -365,10 +393,39 @@ def unordered_loops(mod: Mod):
     return out
 
 
-def commutative_body(loop: ast.For):
-    """body consists only of keyed stores X[.. loop vars ..] = value (value not reading X) and
-    `continue`-guards; returns (ok, reason)"""
+def ordered_containers(fd) -> set:
+    """names of locals/parameters of fd that certainly are pandas tables or series (their column / row order is what gets
+    printed and iterated): annotated so, or bound to a pandas constructor / reader"""
+    out = set()
+    if fd is None:
+        return out
+    for a in fd.args.posonlyargs + fd.args.args + fd.args.kwonlyargs:
+        if a.annotation is not None and any(t in src(a.annotation) for t in ("DataFrame", "Series")):
+            out.add(a.arg)
+    for st in ast.walk(fd):
+        if isinstance(st, ast.Assign) and len(st.targets) == 1 and isinstance(st.targets[0], ast.Name) and isinstance(st.value, ast.Call):
+            name = dotted_name(st.value.func) or ""
+            if name.split(".")[-1] in ("DataFrame", "Series", "read_table", "read_csv", "read_fwf") and ("pandas" in name or name.split(".")[0] in ("pd", "pandas")):
+                out.add(st.targets[0].id)
+    return out
+
+
+def commutative_body(loop: ast.For, fd=None):
+    """body consists only of keyed stores X[.. loop vars ..] = value (value not reading X) into containers whose order is not
+    observable, per-iteration locals and `continue`-guards; returns (ok, reason)"""
     loop_vars = {n.id for n in ast.walk(loop.target) if isinstance(n, ast.Name)}
+    ordered = ordered_containers(fd)
+    # plain locals bound in the body: fine when every iteration binds them before reading them (nothing carried over)
+    body_locals = {t.id for st in ast.walk(loop) if isinstance(st, ast.Assign) for t in st.targets if isinstance(t, ast.Name)}
+    carried = set()
+    if body_locals:
+        from .cfg import DefiniteAssignment
+        fn = ast.FunctionDef(name="body", args=ast.arguments(posonlyargs=[], args=[], kwonlyargs=[], kw_defaults=[], defaults=[]),
+                             body=loop.body, decorator_list=[], lineno=loop.lineno, col_offset=0)
+        try:
+            carried = {name for name, node, path in DefiniteAssignment(fn).problems if name in body_locals}
+        except Exception:
+            carried = set(body_locals)
 
     def ok_stmt(st):
         if isinstance(st, (ast.Pass, ast.Continue)):
@@ -391,9 +448,19 @@ def commutative_body(loop: ast.For):
             idx_names = {n.id for n in ast.walk(t.slice) if isinstance(n, ast.Name)}
             base = src(t.value)
             reads_base = any(src(n) == base for n in ast.walk(st.value) if isinstance(n, (ast.Name, ast.Attribute)))
-            if idx_names & loop_vars and not reads_base:
+            root = t.value
+            while isinstance(root, (ast.Attribute, ast.Subscript)):
+                root = root.value
+            if isinstance(root, ast.Name) and root.id in ordered:
+                return False, f"store {src(t)} adds or sets a column/row of the pandas object {root.id}: its column order (printed, iterated later) follows the set order"
+            if (idx_names & (loop_vars | (body_locals - carried))) and not reads_base:
                 return True, ""
             return False, f"store {src(t)} is not keyed by the loop variable or reads the container being built"
+        if isinstance(st, ast.Assign) and all(isinstance(t_, ast.Name) for t_ in st.targets):
+            names_ = {t_.id for t_ in st.targets}
+            if names_ & carried:
+                return False, f"local {sorted(names_ & carried)} is read before it is bound in an iteration (carried over from the previous one)"
+            return True, ""
         if isinstance(st, ast.AugAssign) and isinstance(st.op, (ast.Add, ast.Mult)):
             return False, f"floating-point accumulation {src(st)[:60]} depends on the iteration order"
         return False, f"statement {src(st)[:60]}"
